@@ -216,9 +216,10 @@ class ItemPosMap:
 
 
 class SymTable:
-    def __init__(self, rows: Rows, cols):
+    def __init__(self, rows: Rows, cols, index_cols=None):
         self.rows = rows
         self.cols = dict(cols)  # ordered
+        self.index_cols = dict(index_cols or {})  # ordered; empty = default RangeIndex
 
     @property
     def columns(self):
@@ -231,7 +232,35 @@ class SymTable:
         raise core.Unsupported("len() of symbolic table outside shimmed module")
 
     def copy(self):
-        return SymTable(self.rows, self.cols)
+        return SymTable(self.rows, self.cols, self.index_cols)
+
+    def set_index(self, index, inplace=False, **kw):
+        """positional pairing of the rows with the entries of an index of the same length"""
+        if kw or not isinstance(index, FakeIndex):
+            raise core.Unsupported("set_index with something other than a (Multi)Index object")
+        if not symnp.same_size(index.rows.n, self.rows.n):
+            raise ValueError(f"Length mismatch: Expected {self.rows.n} rows, received array of length {index.rows.n}")
+        rows = self.rows
+        icols = {nm: Col(rows, col.kind, col.fn, isna=col.isna_fn, name=nm) for nm, col in index.cols.items()}
+        if inplace:
+            self.index_cols = icols
+            return None
+        return SymTable(rows, self.cols, icols)
+
+    def reset_index(self, inplace=False, drop=False, **kw):
+        """index levels become the leading columns (or are dropped); default index afterwards"""
+        if kw:
+            raise core.Unsupported(f"reset_index options {sorted(kw)}")
+        cols = dict(self.cols) if drop else {**self.index_cols, **self.cols}
+        if not drop and len(cols) != len(self.index_cols) + len(self.cols):
+            raise ValueError("cannot insert an index level, already exists")
+        if inplace:
+            self.cols, self.index_cols = cols, {}
+            return None
+        return SymTable(self.rows, cols, {})
+
+    def pivot(self, *a, **k):
+        raise core.Unsupported("DataFrame.pivot on a symbolic table")
 
     def __getitem__(self, key):
         if isinstance(key, list):
@@ -365,3 +394,96 @@ class FakeItertools:
 
     def __getattr__(self, name):
         return getattr(itertools, name)
+
+
+class FakeIndex:
+    """a pandas (Multi)Index: named levels over a row set"""
+
+    def __init__(self, rows, cols):
+        self.rows = rows
+        self.cols = dict(cols)
+
+    @property
+    def names(self):
+        return list(self.cols)
+
+
+class _FakeMultiIndex:
+    @staticmethod
+    def from_product(iterables, names=None, **kw):
+        """all combinations of the given item lists in C order (last list varies fastest)"""
+        if kw:
+            raise core.Unsupported(f"MultiIndex.from_product options {sorted(kw)}")
+        lists = list(iterables)
+        names = list(names) if names is not None else [None] * len(lists)
+        if len(names) != len(lists):
+            raise ValueError("Length of names must match number of levels in MultiIndex.")
+        if not lists:
+            raise ValueError("Must pass non-zero number of levels/codes")
+        for l in lists:
+            if not hasattr(l, "at_expr"):
+                raise core.Unsupported("MultiIndex.from_product over something other than item lists")
+        co = symnp.corder_of([l.n for l in lists])
+        rows = Rows(co.N)
+        cols = {}
+        for d, (nm, l) in enumerate(zip(names, lists)):
+            if nm in cols:
+                raise core.Unsupported("duplicate level names")
+            cols[nm] = Col(rows, "item", (lambda d, l: lambda r: l.at_expr(co.dec_expr(d, r)))(d, l), name=nm)
+        return FakeIndex(rows, cols)
+
+    @staticmethod
+    def from_arrays(arrays, names=None, **kw):
+        """level d of entry r is arrays[d][r]"""
+        if kw:
+            raise core.Unsupported(f"MultiIndex.from_arrays options {sorted(kw)}")
+        arrays = list(arrays)
+        names = list(names) if names is not None else [None] * len(arrays)
+        if len(names) != len(arrays):
+            raise ValueError("Length of names must match number of levels in MultiIndex.")
+        if not arrays:
+            raise ValueError("Must pass non-zero number of levels/codes")
+        for a in arrays:
+            if not isinstance(a, symnp.SymArr) or a.ndim != 1:
+                raise core.Unsupported("MultiIndex.from_arrays over something other than 1-d symbolic arrays")
+        n = arrays[0].shape[0]
+        for a in arrays[1:]:
+            if not symnp.same_size(a.shape[0], n):
+                raise ValueError("all arrays must be same length")
+        rows = Rows(n)
+        cols = {}
+        for nm, a in zip(names, arrays):
+            fz = a.frozen()
+            cols[nm] = Col(rows, "item", (lambda fz: lambda r: fz((to_int(r),)))(fz), name=nm)
+        return FakeIndex(rows, cols)
+
+
+class FakePandas:
+    """stands in for the name `pd` inside FlodymArray.to_df: the five pandas operations of the long-format export
+    are row-level contracts (assumed); everything else is the real pandas"""
+
+    MultiIndex = _FakeMultiIndex
+
+    @staticmethod
+    def DataFrame(data=None, **kw):
+        if kw or not isinstance(data, dict):
+            raise core.Unsupported("DataFrame(...) from something other than a dict of columns")
+        rows = None
+        cols = {}
+        for nm, a in data.items():
+            if not isinstance(a, symnp.SymArr) or a.ndim != 1:
+                raise core.Unsupported("DataFrame column that is not a 1-d symbolic array")
+            if rows is None:
+                rows = Rows(a.shape[0])
+            elif not symnp.same_size(a.shape[0], rows.n):
+                raise ValueError("All arrays must be of the same length")
+            fz = a.frozen()
+            cols[nm] = Col(rows, "real" if a.kind == "real" else "int", (lambda fz: lambda r: fz((to_int(r),)))(fz), name=nm)
+        if rows is None:
+            raise core.Unsupported("empty DataFrame")
+        return SymTable(rows, cols)
+
+    def __getattr__(self, name):
+        import pandas
+
+        return getattr(pandas, name)
